@@ -283,6 +283,8 @@ def coq_of_tokens(echo):
             out.append('OConcat [' + ';'.join(f'({p[0]}%nat, {z(p[1])})' for p in ps) + ']')
         elif o == 'drop':
             out.append(f'ODrop {f[1]}')
+        elif o == 'extbad':
+            out.append(f'OExtendBad {f[1]} {z(f[2])} {b(f[3])} {els(f[4])} {f[5]}')
         elif o == 'appbad':
             out.append(f'OAppendBad {f[1]}')
         elif o == 'shrink':
